@@ -30,11 +30,17 @@ type Case struct {
 	Text []byte   `json:"text,omitempty"`
 	Pred string   `json:"pred,omitempty"`
 	Args []string `json:"args,omitempty"`
+	// Pre: queries run first on the same interpreter (flag and table changes a program may have made earlier);
+	// their outcome is not judged
+	Pre []string `json:"pre,omitempty"`
 }
 
 func (c Case) String() string {
 	if c.Kind == "text" {
 		return fmt.Sprintf("Exec/Query(%q)", c.Text)
+	}
+	if len(c.Pre) > 0 {
+		return strings.Join(c.Pre, " ") + " then " + c.goal()
 	}
 	return c.goal()
 }
@@ -172,6 +178,12 @@ func execute(c Case) Reply {
 		return rep
 	case "goal":
 		i := sut.New()
+		for _, pq := range c.Pre {
+			if sols, err := i.P.QueryContext(sut.NewStepCtx(stepBudget, nil), pq); err == nil {
+				sols.Next()
+				_ = sols.Close()
+			}
+		}
 		// S0 is an open stream term for the 'stream' shape
 		q := "current_output(S0), " + c.goal() + "."
 		sols, err := i.P.QueryContext(sut.NewStepCtx(stepBudget, nil), q)
@@ -441,6 +453,16 @@ type proc struct {
 	Arity int
 }
 
+// preludes: state changes a program may have made before the goal runs.
+var preludes = []string{
+	"set_prolog_flag(unknown, warning).", "set_prolog_flag(unknown, fail).", "set_prolog_flag(unknown, error).",
+	"set_prolog_flag(double_quotes, codes).", "set_prolog_flag(double_quotes, atom).", "set_prolog_flag(double_quotes, chars).",
+	"set_prolog_flag(char_conversion, on).", "set_prolog_flag(debug, on).",
+	"char_conversion(a, b).", "op(200, xfy, foo).", "op(0, yfx, +).", "op(700, xfx, [a, b]).",
+	"assertz(foo(1)).", "assertz((foo(X) :- bar(X))).", "assertz((term_expansion(X, X) :- fail)).", "assertz((goal_expansion(X, X) :- fail)).",
+	"set_input(user_input).", "open(scratch_file, write, _, [alias(zz)]).", "close(user_output).", "set_output(user_error).",
+}
+
 func procedures() []proc {
 	p := prolog.New(strings.NewReader(""), io.Discard)
 	var out []proc
@@ -512,9 +534,18 @@ func TestProp(t *testing.T) {
 	}
 	r.Rapid(t, "goals", r.Pick(40000, 1500000), func(t *rapid.T) {
 		pr := procs[u(t, len(procs), "proc")]
+		if u(t, 25, "undefined") == 0 { // a procedure that does not exist
+			pr = proc{"undefined_zz", u(t, 3, "uar")}
+		}
 		c := Case{Kind: "goal", Pred: pr.Name}
 		for k := 0; k < pr.Arity; k++ {
 			c.Args = append(c.Args, shapes[u(t, len(shapes), "shape")])
+		}
+		if u(t, 4, "pre") == 0 {
+			for k, n := 0, 1+u(t, 2, "npre"); k < n; k++ {
+				c.Pre = append(c.Pre, preludes[u(t, len(preludes), "prelude")])
+			}
+			r.Label("goal_after_flag_or_table_change")
 		}
 		rep, err := check(c)
 		r.Label("sampled_goal")
